@@ -1,4 +1,5 @@
-\* proto negotiation: one session, every configuration pair, one fault, termination
+\* proto negotiation: one session, every configuration pair, one fault, termination; every distinct end state is
+\* also emitted with a history leading there (run with -workers 1; executed on the real functions)
 SPECIFICATION Spec
 CONSTANTS
   Sessions = {1}
@@ -7,7 +8,8 @@ CONSTANTS
   FaultKinds <- AllKinds
   ResetChoices <- Repaired
   Concurrent = FALSE
-  RecordHist = FALSE
+  RecordHist = TRUE
+INVARIANT Emit
 INVARIANTS Agreement ResponderSound InitiatorSound MutualChoice FaultNeverSuccess PoolClean
 PROPERTY Terminates
 VIEW view
